@@ -11,6 +11,15 @@ checks = {
  "C16": dict(
    text="All 2^32 words and all 2^32 byte quadruples are decided by the solver on the real BytesFromLowBits/I32FromBytes (bit loops executed with constant trip counts, diamonds merged to ite terms): no bound is left open, so within the trusted base this is a decision for every input, not a sample.",
    design="§5 C16", note=BASE_NOTE + "No assumption on inputs."),
+ "C13": dict(
+   text="Bounded-exhaustive operation histories from the empty cache (the executor forks on every operation choice; probe addresses and all data bytes are SMT variables) plus single/double operations from an ARBITRARY valid state, also at the 64B/1KB and 128B/4KB geometries the variants use, on the real comp.LRUCache and the generic cache.LRUCache; every returned byte/line/victim is compared by the solver with an MRU-first list kept by the harness.",
+   design="§5 C13", note=BASE_NOTE + "Assumes callers never insert a line overlapping a resident one and Write stays inside one resident line; histories longer than k and unaligned bases are outside."),
+ "C14": dict(
+   text="Bounded-exhaustive histories of add/connect/get/pick/cycle++/revert/delete-last/clean/exists (from the empty bus, and k operations from an arbitrary bus state with symbolic payloads and availability stamps) on the real BufferedBus, plus SimpleBus, Queue (with its goroutine/channel iterator interpreted) and Broadcast; delivery order, exactly-once, visibility not before c+1, capacity, clean and revert are assertions over symbolic payloads.",
+   design="§5 C14", note=BASE_NOTE + "Producer contract (Add/Revert only while CanAdd); a reverted item is next after the already visible ones (weakest reading; Revert/DeleteLast have no caller); capacities <= 3 (quick) / 4 (thorough)."),
+ "C15": dict(
+   text="Bounded-exhaustive histories of tagged write / tagged read / commit / rollback with symbolic values AND symbolic tags (the executor forks on every tag comparison) on the real Context transaction map and rename table and on the bare comp.RAT with rings 2 and 3 (wrap-around inside short histories), against a list of tagged writes.",
+   design="§5 C15", note=BASE_NOTE + "Tags positive and distinct per register; strong clauses only while pending writes per register <= slots; a tagged read may return the committed value or any pending write with tag <= t. Known finding (recorded, not repaired): out-of-program-order arrival of writes to one register in the rename table (last-written-wins)."),
  "C02": dict(
    text="For each of the 45 mnemonics and each register-name pattern the real Run/ReadRegisters/WriteRegisters/MemoryRead/MemoryWrite are executed symbolically with all register values, immediates, offsets, pc, branch target and loaded bytes as SMT variables and compared with the RV32IM definition written in the harness; the solver decides every assertion for all 2^32..2^160 operand combinations of that pattern (quick: canonical alias patterns; thorough: all 5^k name tuples).",
    design="§5 C02", note=BASE_NOTE + "Assumes shift immediates in 0..31, pc/targets multiples of 4 in [0,2^20), code uniform in register names beyond {zero,ra,t0,t1,t2}; division by zero must be an error value."),
